@@ -1188,7 +1188,9 @@ class Table(Vector):
 			left_schema = left_col.schema()
 			right_schema = right_col.schema()
 			if left_schema is not None and right_schema is not None:
-				if left_schema.kind is not right_schema.kind:
+				# (object is the kind of a column without a typed value - all None - or of mixed
+				# values: it is compared row by row like any other key, never refused up front)
+				if left_schema.kind is not right_schema.kind and object not in (left_schema.kind, right_schema.kind):
 					raise SerifTypeError(
 						f"Join key at index {i} has mismatched dtypes: "
 						f"{left_schema.kind.__name__} (left) vs {right_schema.kind.__name__} (right)"
